@@ -110,9 +110,11 @@ Clone ==
   /\ Can /\ Record("clone", <<>>, "ok", params)
   /\ UNCHANGED <<uni, params, orig, fits, done>>
 
-\* transform / mahalanobis / score never change the parameters
+\* transform / mahalanobis / score never change the parameters; neither does exporting the filter (export_python hands out
+\* a filter built from exactly the current parameters -- the trace specification compares its configuration and noises)
+Queries == {"transform", "mahalanobis", "score", "export_python"}
 Query(q) ==
-  /\ Can /\ q \in {"transform", "mahalanobis", "score"}
+  /\ Can /\ q \in Queries
   /\ Record(q, <<>>, "ok", params)
   /\ UNCHANGED <<uni, params, orig, fits, done>>
 
@@ -124,18 +126,24 @@ Query(q) ==
 (***************************************************************************)
 FitPost(p) == [p EXCEPT !.process_noise = [id |-> "fitted", keys |-> p.process_noise.keys, finite |-> TRUE, positive |-> TRUE],
                         !.sensor_noises = [id |-> "fitted", keys |-> p.sensor_noises.keys, finite |-> TRUE]]
-FitOk ==
-  /\ Can /\ fits < MaxFits
+\* fit_transform is fit followed by transform of the same data with the fitted estimator: the same parameter change
+FitCmds == {"fit", "fit_transform"}
+FitOkC(c) ==
+  /\ Can /\ fits < MaxFits /\ c \in FitCmds
   /\ params' = FitPost(params)
-  /\ Record("fit", <<>>, "ok", params')
+  /\ Record(c, <<>>, "ok", params')
   /\ fits' = fits + 1
   /\ UNCHANGED <<uni, orig, done>>
 \* (the property makes no claim about the parameters after a failed fit; the behaviour ends there)
-FitFail ==
-  /\ Can /\ fits < MaxFits
-  /\ Record("fit", <<>>, "MinimizationFailure", params)
+FitFailC(c) ==
+  /\ Can /\ fits < MaxFits /\ c \in FitCmds
+  /\ Record(c, <<>>, "MinimizationFailure", params)
   /\ done' = TRUE
   /\ UNCHANGED <<uni, params, orig, fits>>
+FitOk == \E c \in FitCmds : FitOkC(c)
+FitFail == \E c \in FitCmds : FitFailC(c)
+\* (one action for the simulator, see SetAny)
+FitAny == Can /\ (FitOk \/ FitFail)
 
 Emit ==
   /\ ~done /\ Len(log) >= 1 /\ EmitOn
@@ -155,14 +163,14 @@ SetAny ==
            \/ \E t \in PNoiseToks : \E f \in ConfigFields : \E v \in ConfigVals[f] : SetNoiseAndField(t, f, v)
            \/ \E cfg \in {x \in Configs : ConfigOK(x)} : \E f \in ConfigFields : \E v \in ConfigVals[f] : SetConfigAndField(cfg, f, v)
            \/ \E k \in BogusKeys : SetBogus(k) )
-QueryAny == Can /\ \E q \in {"transform", "mahalanobis", "score"} : Query(q)
+QueryAny == Can /\ \E q \in Queries : Query(q)
 
 Next ==
   \/ GetSetRoundTrip
   \/ SetAny
   \/ Clone
   \/ QueryAny
-  \/ FitOk \/ FitFail
+  \/ FitAny
   \/ Emit
 
 \* fingerprint without the command history (exhaustive configuration)
